@@ -359,6 +359,23 @@ func VerifC20Raft() {
 	}
 	if members >= 3 && verifrt.Bound("removal", 1) == 1 && verifrt.Choose("remove-last", 2) == 1 {
 		id := uint64(members)
+		// optionally another member is down while the removal happens, so that its log
+		// lags behind the removal when it comes back
+		var lagging uint64
+		if verifrt.Bound("rejoin", 0) == 1 && verifrt.Choose("member-down-during-removal", 2) == 1 {
+			if l := waitLeader(60); l != 0 {
+				for m := uint64(1); m < id; m++ {
+					if m != l && live[m] != nil {
+						lagging = m
+						break
+					}
+				}
+			}
+			if lagging != 0 {
+				stop(lagging)
+				verifrt.Tag("member-down-during-removal")
+			}
+		}
 		if l := waitLeader(60); l != 0 && l != id {
 			rerr, answered := async(func() error { return live[l].nodesManager.RemoveNode(id) })
 			if !answered || rerr != nil {
@@ -372,6 +389,35 @@ func VerifC20Raft() {
 				stop(id)
 			}
 			verifrt.Tag("after-removal")
+			if verifrt.Bound("rejoin", 0) == 1 && verifrt.Choose("removed-member-rejoins", 2) == 1 {
+				// the removed member comes back with its original command line and joins again,
+				// through the member that was down (it has not caught up yet) or through the leader
+				via := l
+				if lagging != 0 {
+					if start(lagging, cfgs[lagging]) == nil {
+						return
+					}
+					via = lagging
+					lagging = 0
+				}
+				cfgs[id] = mkcfg(id, via)
+				s := start(id, cfgs[id])
+				if s == nil {
+					return
+				}
+				jerr, answered := async(s.JoinCluster)
+				if answered && jerr == nil {
+					want[id] = addr(id)
+					verifrt.Tag("rejoined-after-removal")
+				} else {
+					stop(id)
+				}
+			}
+		}
+		if lagging != 0 {
+			if start(lagging, cfgs[lagging]) == nil {
+				return
+			}
 		}
 	}
 	dbgstate("joined")
